@@ -613,6 +613,14 @@ Proof.
   now rewrite skipn_length, repeat_length in E.
 Qed.
 
+Lemma read_within {A} (s t : list A) off size :
+  (off + size <= length s)%nat -> firstn size (skipn off (s ++ t)) = firstn size (skipn off s).
+Proof.
+  intros H. rewrite skipn_app. replace (off - length s)%nat with 0%nat by lia. cbn [skipn].
+  rewrite firstn_app. rewrite skipn_length. replace (size - (length s - off))%nat with 0%nat by lia.
+  cbn [firstn]. apply app_nil_r.
+Qed.
+
 Lemma Forall_remove_nth {A} (P : A -> Prop) l n : Forall P l -> Forall P (remove_nth l n).
 Proof.
   intros H. revert n. induction H; intros [|n]; cbn; auto.
@@ -672,11 +680,22 @@ Section MemProofs.
       unfold mem_set32, mlen. cbn [m_store m_tail m_last_gas].
       destruct (_ <? _); [repeat split; auto|]. destruct (_ <? _); repeat split; auto.
     - (* Copy *)
-      unfold mem_copy, mlen. cbn [m_store m_tail m_last_gas].
-      destruct (ln =? 0); [repeat split; auto|]. destruct (_ || _); repeat split; auto.
+      unfold within_len, mem_copy, mlen, mcap, backing, rmem.
+      cbn [m_store m_tail m_last_gas fst snd length]. rewrite Nat.add_0_r, app_nil_r.
+      destruct (((ln =? 0) || (dst + ln <=? N.of_nat (length store))) &&
+                ((ln =? 0) || (src + ln <=? N.of_nat (length store)))) eqn:Eg; [|repeat split; auto].
+      destruct (ln =? 0) eqn:E0; [repeat split; auto|]. cbn [orb] in Eg.
+      destruct ((N.of_nat (length store + length tail) <? src + ln) || _) eqn:E1; [exfalso; lia|].
+      destruct ((N.of_nat (length store) <? src + ln) || _) eqn:E2; [exfalso; lia|].
+      rewrite read_within by lia. repeat split; auto.
     - (* Get *)
-      unfold mem_get, mlen. cbn [m_store m_tail m_last_gas].
-      destruct (size =? 0); [repeat split; auto|]. destruct (_ <? _); repeat split; auto.
+      unfold within_len, mem_get, mlen, mcap, backing, rmem.
+      cbn [m_store m_tail m_last_gas fst snd length]. rewrite Nat.add_0_r, app_nil_r.
+      destruct ((size =? 0) || (offset + size <=? N.of_nat (length store))) eqn:Eg; [|repeat split; auto].
+      destruct (size =? 0) eqn:E0; [repeat split; auto|]. cbn [orb] in Eg.
+      destruct (N.of_nat (length store + length tail) <? offset + size) eqn:E1; [exfalso; lia|].
+      destruct (N.of_nat (length store) <? offset + size) eqn:E2; [exfalso; lia|].
+      rewrite read_within by lia. repeat split; auto.
     - (* Len *)
       repeat split; auto.
     - (* Gas *)
@@ -735,13 +754,26 @@ Section MemProofs.
     cbn [rstep] in H1. destruct H1 as [_ H1]. cbn [fst].
     pose proof (mstep_refines st1 _ (MResize n) H1) as H2.
     destruct (mstep mgrow st1 (MResize n)) as [st2 ob2]. cbn [rstep rmem fst snd] in H2.
-    unfold mlen in H2 at 1. cbn [m_store length] in H2.
-    destruct (N.of_nat 0 <? n) eqn:E; [|lia]. destruct H2 as [_ (H2 & H3 & _)].
+    unfold mlen in H2. change (N.of_nat (length (m_store (rmem ([], 0))))) with 0 in H2.
+    destruct (0 <? n) eqn:E; [|lia]. destruct H2 as [_ (H2 & H3 & _)].
     cbn [fst snd app] in *. rewrite Nat.sub_0_r in H2.
-    unfold mem_get, mlen. rewrite H2, repeat_length.
-    destruct (size =? 0) eqn:E0; [lia|]. destruct (N.of_nat (N.to_nat n) <? offset + size) eqn:E1; [lia|].
+    unfold mem_get, mlen, mcap, backing. rewrite H2, repeat_length.
+    destruct (size =? 0) eqn:E0; [lia|]. destruct (_ <? offset + size) eqn:E1; [lia|].
     split; [|split; [lia|auto]]. f_equal.
+    rewrite read_within by (rewrite repeat_length; lia).
     rewrite skipn_repeat0. apply firstn_repeat0. lia.
+  Qed.
+  (* even a read that is NOT covered by a preceding Resize (beyond len, within cap — Go does
+     not panic there) sees nothing of an earlier execution: the bytes beyond len are zero *)
+  Theorem unchecked_read_sees_zero : forall ops offset size b,
+    let m := fst (mfinal mgrow (mem_new, []) ops) in
+    mem_get m offset size = Some b ->
+    b = firstn (N.to_nat size) (skipn (N.to_nat offset) (m_store m ++ repeat 0 (length (m_tail m)))).
+  Proof.
+    intros ops offset size b m H. destruct (memory_zero_beyond_len ops) as [Hz _]. fold m in Hz.
+    unfold mem_get, backing in H. destruct (size =? 0) eqn:E0.
+    - inversion H. apply N.eqb_eq in E0. subst size. reflexivity.
+    - destruct (_ <? _); [discriminate|]. inversion H. now rewrite <- (zeros_eq _ Hz).
   Qed.
 End MemProofs.
 
@@ -817,18 +849,20 @@ Section CacheProofs.
   Proof.
     intros jd [cd ch ca] Hj (Hp & Hh & Ha). cbn [c_code c_hash c_analysis] in *.
     unfold is_code_analysis. cbn [c_code c_hash c_analysis].
+    assert (Hfin : forall a h, a = analyse cd -> (forall h', h = Some h' -> h' = code_hash cd) ->
+              contract_ok (mkContract code hash bitvec cd h (Some a))).
+    { intros a h -> Hh'. repeat split; cbn; auto. intros a E. now inversion E. }
     destruct ca as [a|].
     - repeat split; auto.
     - destruct ch as [h|].
-      + destruct (jload jd h) as [a|] eqn:El.
+      + pose proof (Hh _ eq_refl) as Hh'. subst h.
+        destruct (jload jd (code_hash cd)) as [a|] eqn:El.
         * destruct (jreach_ok _ Hj _ _ El) as (c2 & Hp2 & Hh2 & ->).
-          specialize (Hh _ eq_refl). subst h.
           assert (c2 = cd) by (apply H_inj_on; auto). subst c2.
-          repeat split; auto. cbn. intros a E. now inversion E.
-        * repeat split; auto.
-          -- specialize (Hh _ eq_refl). subst h. econstructor; [exact Hj|]. now constructor.
-          -- cbn. intros a E. now inversion E.
-      + repeat split; auto. cbn. intros a E. now inversion E.
+          split; [reflexivity|]. split; [exact Hj|]. split; [apply Hfin; auto|reflexivity].
+        * split; [reflexivity|]. split; [|split; [apply Hfin; auto|reflexivity]].
+          econstructor; [exact Hj|]. now constructor.
+      + split; [reflexivity|]. split; [exact Hj|]. split; [apply Hfin; auto|reflexivity].
   Qed.
 
   (* -------- precompile result cache *)
